@@ -308,9 +308,10 @@ async fn run_op(env: Arc<Env>, task: String, op: Value) {
       rec(&task, "call", format!("\"op\":\"send\",\"sock\":\"{}\",\"mid\":\"{}\",\"size\":{},\"more\":{},\"t\":{}", sname, mid, size, more, ms(&env)));
       let t1 = Instant::now();
       let res = match cancel {
-        Some(n) => match CancelAt::new(s.send(mk_msg(&mid, size, more)), n as usize).await {
-          Some(r) => res_str(&r),
-          None => "cancelled".to_string(),
+        Some(n) => match tokio::time::timeout(Duration::from_millis(if tmo == 0 { 400 } else { tmo }), CancelAt::new(s.send(mk_msg(&mid, size, more)), n as usize)).await {
+          Ok(Some(r)) => res_str(&r),
+          // dropped at the k-th Pending - or still parked at an earlier one when the bound ran out
+          Ok(None) | Err(_) => "cancelled".to_string(),
         },
         None => res_str(&with_timeout(tmo, s.send(mk_msg(&mid, size, more))).await),
       };
@@ -348,9 +349,9 @@ async fn run_op(env: Arc<Env>, task: String, op: Value) {
           s.send_multipart(frames).await
         };
         match cancel {
-          Some(k) => match CancelAt::new(fut, k as usize).await {
-            Some(r) => res_str(&r),
-            None => "cancelled".to_string(),
+          Some(k) => match tokio::time::timeout(Duration::from_millis(if tmo == 0 { 400 } else { tmo }), CancelAt::new(fut, k as usize)).await {
+            Ok(Some(r)) => res_str(&r),
+            Ok(None) | Err(_) => "cancelled".to_string(),
           },
           None => res_str(&with_timeout(tmo, fut).await),
         }
@@ -363,7 +364,7 @@ async fn run_op(env: Arc<Env>, task: String, op: Value) {
       rec(&task, "call", format!("\"op\":\"recv\",\"sock\":\"{}\",\"t\":{}", sname, ms(&env)));
       let t1 = Instant::now();
       let r: Option<Result<Msg, ZmqError>> = match cancel {
-        Some(k) => CancelAt::new(s.recv(), k as usize).await,
+        Some(k) => tokio::time::timeout(Duration::from_millis(if tmo == 0 { 400 } else { tmo }), CancelAt::new(s.recv(), k as usize)).await.unwrap_or(None),
         None => Some(with_timeout(tmo, s.recv()).await),
       };
       match r {
@@ -382,7 +383,7 @@ async fn run_op(env: Arc<Env>, task: String, op: Value) {
       rec(&task, "call", format!("\"op\":\"recv_mp\",\"sock\":\"{}\",\"t\":{}", sname, ms(&env)));
       let t1 = Instant::now();
       let r: Option<Result<Vec<Msg>, ZmqError>> = match cancel {
-        Some(k) => CancelAt::new(s.recv_multipart(), k as usize).await,
+        Some(k) => tokio::time::timeout(Duration::from_millis(if tmo == 0 { 400 } else { tmo }), CancelAt::new(s.recv_multipart(), k as usize)).await.unwrap_or(None),
         None => Some(with_timeout(tmo, s.recv_multipart()).await),
       };
       match r {
